@@ -21,7 +21,7 @@ _HIST_RULE = ("one case = one seeded operation history (configuration + explicit
 
 
 def _hist(quick, thorough, what, profile=None, **kw):
-    d = {"engine": "history", "quick": quick, "thorough": thorough, "limit_s": 90, "rule": _HIST_RULE + "; " + what,
+    d = {"engine": "history", "quick": quick, "thorough": thorough, "limit_s": 300, "rule": _HIST_RULE + "; " + what,
          "level_text": "seeded exploration of operation histories with an exact reference-model oracle checked after "
                        "every operation; " + what + "; violations are minimised and replayed in a pristine process "
                        "before being reported",
@@ -75,7 +75,7 @@ PROPS = {
                  design_ref="DESIGN.md 5 C17", level="fault_enumeration",
                  phases=[{"profile": "C17", "share": 0.69}, {"profile": "C17multi", "share": 0.25}, {"profile": "C17str", "share": 0.06}],
                  phases_thorough=[{"profile": "C17all", "share": 0.69}, {"profile": "C17multi", "share": 0.25},
-                                  {"profile": "C17str", "share": 0.06}], limit_s=240),
+                                  {"profile": "C17str", "share": 0.06}], limit_s=900),
     "C18": _hist(2500, 60000, "histories on every frontend class with restarts as the crash model: in-process pickle round "
                  "trips that replace the solver or create a twin driven alongside it, expression round trips "
                  "(loads(dumps(e)) is e), and fresh-interpreter restarts (only the pickles survive; new process, other "
@@ -88,7 +88,7 @@ PROPS = {
                  design_ref="DESIGN.md 5 C18",
                  phases=[{"profile": "C18", "share": 0.62}, {"profile": "C18approx", "share": 0.2}, {"profile": "C18fresh", "share": 0.1},
                          {"profile": "C18expr", "share": 0.04}, {"profile": "C18str", "share": 0.04}]),
-    "C26": {"engine": "values", "quick": 2000, "thorough": 60000, "limit_s": 90,
+    "C26": {"engine": "values", "quick": 2000, "thorough": 60000, "limit_s": 300,
             "rule": "one case = one seeded history 'pin -> query -> query other expressions over the same variables' on "
                     "Solver / SolverComposite / SolverCacheless / SolverStrings over wide bit-vectors (1..130 bits), "
                     "floats (boundary values of both sorts) and strings (NUL, backslash, escape look-alikes, non-BMP); "
@@ -101,7 +101,7 @@ PROPS = {
             "level_note": "trusted: Z3 (reference context) and the two 150-line spec builders; samples the pure extraction "
                           "function only at the boundary constants of its alphabet; reference 'unknown' = no verdict",
             "design_ref": "DESIGN.md 5 C26"},
-    "C06": {"engine": "hashcons", "quick": 20000, "thorough": 200000, "limit_s": 60,
+    "C06": {"engine": "hashcons", "quick": 20000, "thorough": 200000, "limit_s": 200,
             "rule": "one case = one seeded history of build / forget / gc / rebuild / re-annotate / pickle-round-trip / "
                     "backend-downsize events over <= 14 slots (the only strong references), specs over BV/Bool/FP/String "
                     "trees with annotation lists drawn from StridedIntervalAnnotation / RegionAnnotation with colliding "
@@ -118,7 +118,7 @@ PROPS = {
             "design_ref": "DESIGN.md 5 C06",
             "technique": "deterministic simulation: seeded build/drop/GC/pickle event histories over harness-owned "
                          "references with structural-identity invariants after every event"},
-    "C19": {"engine": "gcguard", "quick": 40000, "thorough": 1500000, "limit_s": 60,
+    "C19": {"engine": "gcguard", "quick": 40000, "thorough": 1500000, "limit_s": 200,
             "rule": "one case = one seeded schedule of 1-3 actors (real threads under a baton scheduler; one of them may be "
                     "the real main thread) each running a balanced program of nested _enter_z3/_exit_z3 pairs and "
                     "condom'd calls (depth <= 3, some raising Z3Exception), GC initially enabled or disabled; a scheduling "
@@ -141,7 +141,7 @@ PROPS = {
                        {"opts": {"granularity": "fullstack"}, "share": 0.005}],
             "technique": "deterministic simulation: baton-passing thread scheduler with sys.monitoring LINE/INSTRUCTION "
                          "pre-emption points and a scheduler-owned lock, invariants after every step"},
-    "C20": {"engine": "threads", "quick": 500, "thorough": 60000, "limit_s": 120,
+    "C20": {"engine": "threads", "quick": 500, "thorough": 60000, "limit_s": 400,
             "rule": "one case = 2..8 real threads, each running its own seeded solver history (own solver objects, Solver/"
                     "SolverCacheless/SolverComposite/SolverHybrid/SolverReplacement) over a shared pool of expression "
                     "objects, under one seeded baton schedule (pre-emption at LINE events in claripy code with run-length "
